@@ -249,6 +249,9 @@ class Dimension:
 
     @staticmethod
     def _check_index(index):
+        # the type the index attribute of the link asks for (its setter runs
+        # after the link group has been built)
+        util.check_attr_type(index, Sequence)
         # every entry has to be a plain number: Fraction(-1) or Decimal(-1)
         # compare equal to -1 but cannot be stored as the link's index
         for idx in index:
